@@ -19,6 +19,9 @@ func (p *Path) unop(fr *frame, instr *ssa.UnOp, x Value) Value {
 	ts := p.e.ts
 	switch instr.Op {
 	case token.MUL: // load
+		if sp, ok := x.(*SymPtr); ok {
+			return p.loadSym(fr, instr, sp)
+		}
 		addr := x.(Ptr)
 		if addr == nil {
 			p.rtPanic(fr, instr, "invalid memory address or nil pointer dereference")
@@ -333,17 +336,32 @@ func (p *Path) concretize(fr *frame, instr ssa.Instruction, t *Term, max int) in
 		}
 		return int(v)
 	}
-	lim := p.cfg.MaxConcretize
-	for i := 0; i <= lim && i <= max; i++ {
-		if p.Branch(ts.Eq(t, ts.BV(t.sort.W, uint64(i)))) {
-			return i
-		}
-	}
-	// negative?
+	// negative sizes panic
 	if p.Branch(ts.BVCmp("bvslt", t, ts.BV(t.sort.W, 0))) {
 		p.rtPanic(fr, instr, "negative size or index (symbolic)")
 	}
-	panic(pathEnd{"bound", fmt.Sprintf("symbolic size/index above concretisation bound %d at %s", lim, fr.pos(instr))})
+	// enumerate the feasible values through solver models
+	lim := p.cfg.MaxConcretize
+	for n := 0; n <= lim; n++ {
+		var v uint64
+		if i := len(p.decs); i < len(p.prefix) {
+			v = p.prefix[i].Aux
+		} else {
+			val, ok := p.e.solver.EvalTerm(t)
+			p.h.addFeasQueries(1)
+			if !ok {
+				panic(pathEnd{"bound", "cannot obtain a model value to concretise at " + fr.pos(instr)})
+			}
+			v = val
+		}
+		if p.branchAux(ts.Eq(t, ts.BV(t.sort.W, v)), v) {
+			if v > uint64(max) {
+				panic(pathEnd{"bound", fmt.Sprintf("size %d exceeds engine bound %d at %s", v, max, fr.pos(instr))})
+			}
+			return int(v)
+		}
+	}
+	panic(pathEnd{"bound", fmt.Sprintf("more than %d feasible values when concretising at %s", lim, fr.pos(instr))})
 }
 
 // boundsIndex checks 0 <= idx < n (panic path otherwise) and returns a concrete index.
